@@ -46,6 +46,12 @@ Unit(sq, pos, kind, v) ==
                  [] kind = "set64" -> <<Node("const64", v, -1), Node("lset", 3, -1)>>
                  [] kind = "getp"  -> <<Node("lget", 0, -1), Node("drop", -1, -1)>>
                  [] kind = "getq"  -> <<Node("lget", 1, -1), Node("drop", -1, -1)>>
+                 \* instructions with two operands of one kind, or an operand pair whose order matters: three i32 arguments,
+                 \* then (destination, source) of the module's two tables / two memories, or (segment, destination)
+                 [] kind = "tcopy" -> <<Node("const32", 0, -1), Node("const32", 0, -1), Node("const32", 0, -1), Node("tcopy", 1, 0)>>
+                 [] kind = "mcopy" -> <<Node("const32", 0, -1), Node("const32", 0, -1), Node("const32", 0, -1), Node("mcopy", 0, 1)>>
+                 [] kind = "tinit" -> <<Node("const32", 0, -1), Node("const32", 0, -1), Node("const32", 0, -1), Node("tinit", 0, 1)>>
+                 [] kind = "minit" -> <<Node("const32", 0, -1), Node("const32", 0, -1), Node("const32", 0, -1), Node("minit", 0, 1)>>
   IN /\ seqs' = Ins(sq, pos, nodes) /\ UNCHANGED attached
      /\ hist' = Append(hist, [op |-> "unit", seq |-> sq, pos |-> pos, kind |-> kind, v |-> v, d |-> -1])
 
@@ -138,6 +144,7 @@ Spec == Init /\ [][Next]_bvars
 (* The in-order flattening, as operator records in the shape of the harness's projection of the emitted body *)
 
 Op(o, imm, local, labels, bt) == [o |-> o, imm |-> imm, refs |-> <<>>, local |-> local, labels |-> labels, bt |-> bt]
+OpR(o, refs) == [o |-> o, imm |-> "", refs |-> refs, local |-> -1, labels |-> <<>>, bt |-> ""]
 
 SigText(b) == IF b = 1 THEN "(i32)->(i32)" ELSE IF b = 2 THEN "()->(i32)" ELSE "()->()"
 RECURSIVE FlatSeq(_, _, _), FlatFrom(_, _, _)
@@ -148,6 +155,11 @@ FlatNode(n, stack) ==
     [] n.t = "lset"    -> <<Op("LocalSet", "", n.a, <<>>, "")>>
     [] n.t = "lget"    -> <<Op("LocalGet", "", n.a, <<>>, "")>>
     [] n.t = "drop"    -> <<Op("Drop", "", -1, <<>>, "")>>
+    \* operand order as the binary format has it: table.copy / memory.copy (destination, source); *.init (segment, destination)
+    [] n.t = "tcopy"   -> <<OpR("TableCopy", << <<"table", n.a>>, <<"table", n.b>> >>)>>
+    [] n.t = "mcopy"   -> <<OpR("MemoryCopy", << <<"memory", n.a>>, <<"memory", n.b>> >>)>>
+    [] n.t = "tinit"   -> <<OpR("TableInit", << <<"elem", n.a>>, <<"table", n.b>> >>)>>
+    [] n.t = "minit"   -> <<OpR("MemoryInit", << <<"data", n.a>>, <<"memory", n.b>> >>)>>
     [] n.t \in {"br", "brif"} ->
          \* label depth = number of constructs between the branch and its target
          LET p == CHOOSE x \in DOMAIN stack : stack[x] = n.a /\ \A y \in DOMAIN stack : stack[y] = n.a => y <= x IN
